@@ -183,6 +183,18 @@ CHECKS["C16"] = dict(
     design="§7 C16",
 )
 
+CHECKS["C14"] = dict(
+    text=("Lean: margin_sum_eq_direct - the sum over the distinct labels of the per-label sums equals the direct sum over all selected rows (additivity over the "
+          "partition by key; covers sum / count / size margins); margin_extremum_eq_direct - merging per-group partial results with the count-aware merge "
+          "equals the reduction over all rows (min/max/first/last: extreme of extremes, null-aware; instance of the C04 monoid theorem with block = group); "
+          "mean margin = total sum over total count with the explicit mean-of-means counter-example; crosstab_margin_eq_oneway. Correspondence: every result "
+          "row of GroupBy.<fn>(margins=True | level subsets) for 1-3 keys with sparse combinations, nulls and masks, and every cell / margin of crosstab, "
+          "is recomputed from the selected rows it summarises; ordinary rows compared with the no-margins call; 'All' only at requested levels."),
+    note="add_row_margin's use of pandas reindex / groupby(level) / concat / unstack is assumed library behaviour and tied by correspondence only.",
+    technique="Lean 4 proof (partition additivity by induction; monoid merge from C04) + differential correspondence against a row-level oracle",
+    design="§7 C14",
+)
+
 NOT_APPLICABLE: list[dict] = []
 
 
